@@ -14,6 +14,13 @@ struct entry { char const *begin, *end; html_data_type type; struct tag_data tag
 #define SPECIAL(c) ((c) == '<' || (c) == '>' || (c) == '&')
 size_t g_k;                                   /* arbitrary absolute offset (ghost index) */
 size_t g_v0, g_p0;
+/* strlen / memcmp on the short entity literals of validate_property_value ("amp;" ... "#x27;", at most 6 bytes): loop-free equivalents (R9) */
+static size_t lit_strlen(char const *s) { return !s[0] ? 0 : !s[1] ? 1 : !s[2] ? 2 : !s[3] ? 3 : !s[4] ? 4 : !s[5] ? 5 : 6; }
+static int lit_memcmp(char const *a, char const *b, size_t n)
+{
+  __CPROVER_assert(n <= 6 && __CPROVER_r_ok(a, n) && __CPROVER_r_ok(b, n), "memcmp ranges are readable (entity literal of at most 6 bytes)");
+  return ((n > 0 && a[0] != b[0]) || (n > 1 && a[1] != b[1]) || (n > 2 && a[2] != b[2]) || (n > 3 && a[3] != b[3]) || (n > 4 && a[4] != b[4]) || (n > 5 && a[5] != b[5])) ? 1 : 0;
+}
 #define ALNUM(c) (((c) >= '0' && (c) <= '9') || ((c) >= 'a' && (c) <= 'z') || ((c) >= 'A' && (c) <= 'Z'))
 #define ALPHA(c) ((((c) >= 'a' && (c) <= 'z') || ((c) >= 'A' && (c) <= 'Z')) || (c) == '_')
 /* ---- tags.push_back(entry(b,e,type)) (R10): checks the TILING (each part starts where the previous ended, is non-empty, stays inside the input)
